@@ -103,6 +103,8 @@ def shards(tier, seed):
         out.append(dict(name="L6/profile/m%d/mask" % mi, L=6, kind="profile", mi=mi, masked=True, weight=2 ** 6 * len(MOTIF_SETS[mi])))
     for kind, mi in (("lastG", 0), ("lastG", 2), ("linear", 4)):
         out.append(dict(name="L6/%s/m%d/signed_loss" % (kind, mi), L=6, kind=kind, mi=mi, masked=True, loss="signed", weight=2 ** 6 * len(MOTIF_SETS[mi])))
+    for kind, mi in (("lastG", 1), ("linear", 2), ("linear", 5)):
+        out.append(dict(name="L6/%s/m%d/pinball_loss" % (kind, mi), L=6, kind=kind, mi=mi, masked=mi != 2, loss="pinball", weight=2 ** 6 * len(MOTIF_SETS[mi])))
     # non-default alphabet orders (the rows of X follow the alphabet handed to the call; motifs are strings)
     for alph, kind, mi in (("ACTG", "lastG", 0), ("TGCA", "linear", 2), ("GATC", "linear", 4), ("ACTG", "linear", 1)):
         out.append(dict(name="L6/%s/m%d/alphabet_%s" % (kind, mi, alph), L=6, kind=kind, mi=mi, masked=False, alph=alph,
@@ -113,6 +115,8 @@ def shards(tier, seed):
 LOSSES = {
     "mse": None,                                              # the library default
     "signed": lambda y, y_hat: -(y * y_hat),                  # a caller's own element-wise loss that is not bounded below by 0
+    # not symmetric in (target, prediction): under-prediction costs four times as much as over-prediction (pinball / quantile loss)
+    "pinball": lambda y, y_hat: torch.where(y > y_hat, 0.8 * (y - y_hat), 0.2 * (y_hat - y)),
 }
 
 
